@@ -108,4 +108,58 @@ pub fn oracle(tier: &str, seed: u64) -> (u64, Vec<Finding>) {
 }
 fn reference_ln(x: f64) -> f64 { x.ln() }
 
-pub fn gen(_tier: &str, _seed: u64, _outdir: &str) { let _ = libm::start; eprintln!("C09: gen not implemented"); std::process::exit(3); }
+fn one(f: impl FnOnce() -> f64) -> (libm::Table, Tm) {
+    libm::start();
+    let r = catch(f);
+    let t = libm::stop();
+    (t, outcome_list(&r.map(|x| vec![x])))
+}
+
+pub fn gen(tier: &str, seed: u64, outdir: &str) {
+    let thorough = tier == "thorough";
+    let mut r = Rng::new(seed ^ 0x9C09);
+    let mut cs = Cases::new("C09");
+    let k = if thorough { 10 } else { 1 };
+    // gamma: integers, half-integers, reflection branch, near poles, overflow edge, specials
+    let mut gx: Vec<(f64, &str)> = vec![];
+    for n in 1..=172 { gx.push((n as f64, "gamma/integer")); }
+    for n in 0..=171 { gx.push((n as f64 + 0.5, "gamma/half-integer")); }
+    for _ in 0..400 * k { gx.push((r.uniform(0.5, 171.6), "gamma/direct")); }
+    for _ in 0..400 * k { gx.push((r.uniform(-170.0, 0.5), "gamma/reflection")); }
+    for _ in 0..100 * k { let n = -(r.below(170) as f64); gx.push((n + r.uniform(-1e-3, 1e-3), "gamma/near-pole")); }
+    for _ in 0..50 * k { gx.push((r.uniform(171.0, 180.0), "gamma/overflow-edge")); }
+    for _ in 0..50 * k { gx.push(((r.uniform(-700.0, 0.0)).exp(), "gamma/tiny-positive")); }
+    for x in [0.0, -0.0, 0.5, 0.49999999999999994, 1.0, 2.0, -1.0, -2.0, f64::INFINITY, f64::NEG_INFINITY, f64::NAN, 1e-300, -1e-300, 5e-324, 171.6, 171.7, 200.0, -170.5, -200.5] { gx.push((x, "gamma/special")); }
+    for (x, tag) in gx {
+        let (t, e) = one(|| gamma(x));
+        cs.push(app("CGamma", vec![libm_table(&t), Tm::F(x), e]), tag, x != 1.0 && x != 2.0);
+    }
+    // beta
+    for i in 0..300 * k {
+        let (a, b) = if i % 3 == 0 { (r.uniform(1e-3, 80.0), r.uniform(1e-3, 80.0)) } else if i % 3 == 1 { ((r.uniform(-6.9, 4.38)).exp(), (r.uniform(-6.9, 4.38)).exp()) } else { (r.uniform(-5.0, 5.0), r.uniform(-5.0, 5.0)) };
+        let (t, e) = one(|| beta(a, b));
+        cs.push(app("CBeta", vec![libm_table(&t), Tm::F(a), Tm::F(b), e]), if a < 0.5 || b < 0.5 { "beta/reflection" } else { "beta/direct" }, true);
+    }
+    // digamma: recurrence depths 0..6 and beyond (negative arguments), large arguments, integers
+    let mut dx: Vec<(f64, &str)> = vec![];
+    for n in 1..=40 { dx.push((n as f64, "digamma/integer")); }
+    for _ in 0..300 * k { dx.push(((r.uniform(-6.9, 13.8)).exp(), "digamma/positive")); }
+    for _ in 0..100 * k { dx.push((r.uniform(0.0, 6.0), "digamma/recurrence")); }
+    for _ in 0..60 * k { dx.push((r.uniform(-50.0, 0.0), "digamma/negative")); }
+    for x in [6.0, 5.999999999999999, 0.0, -0.0, -1.0, 1e-300, f64::INFINITY, f64::NAN, 1e300] { dx.push((x, "digamma/special")); }
+    for (x, tag) in dx {
+        let (t, e) = one(|| digamma(x));
+        cs.push(app("CDigamma", vec![libm_table(&t), Tm::F(x), e]), tag, x != 6.0);
+    }
+    // erf
+    let mut ex: Vec<(f64, &str)> = vec![];
+    for _ in 0..300 * k { ex.push((r.uniform(-6.0, 6.0), "erf/core")); }
+    for _ in 0..100 * k { ex.push((r.uniform(-40.0, 40.0), "erf/tails")); }
+    for _ in 0..50 * k { ex.push(((r.uniform(-700.0, 0.0)).exp() * if r.coin(0.5) { 1.0 } else { -1.0 }, "erf/tiny")); }
+    for x in [0.0, -0.0, 1.0, -1.0, f64::INFINITY, f64::NEG_INFINITY, 5e-324, -5e-324, 26.0, 27.0, -27.0, 1e200] { ex.push((x, "erf/special")); }
+    for (x, tag) in ex {
+        let (t, e) = one(|| erf(x));
+        cs.push(app("CErf", vec![libm_table(&t), Tm::F(x), e]), tag, x != 0.0);
+    }
+    cs.write(outdir, 500, "gamma at all integers 1..172 and half-integers, random direct/reflection/near-pole/overflow-edge/tiny arguments and specials; beta on (1e-3,80)^2 linear and log-uniform plus negative arguments; digamma on integers, log-uniform (1e-3,1e6), recurrence depths, negative arguments, specials; erf on [-6,6], +-40, tiny and special arguments; every case carries the libm calls (pow, exp, sin, ln) the implementation made; non-trivial = argument off the trivial points 1, 2 (gamma), 6 (digamma), 0 (erf); distinct by hash of the case term");
+}
